@@ -5,7 +5,7 @@
    translator reads out of eval.rs / pst.rs (every entry within +-200, piece values within 0..900), at most 16 men
    a side, one kind per square and the phase formula: |eval| <= 400000 < MATE_SCORE - MAX_DEPTH = 999872. *)
 From Coq Require Import NArith ZArith List Bool.
-From Rawr Require Import Consts Bits Magic Position Eval MoveGen MakeMove EvalFacts Abs BoundFacts Closure MenCount.
+From Rawr Require Import Consts Bits Magic Position Eval MoveGen MakeMove EvalFacts Abs BoundFacts Closure MenCount Closure EpRetro GenLegal.
 Local Open Scope Z_scope.
 
 (* move counters, castling rights and files, en-passant state, key, Chess960 flag and turn flag are never read *)
@@ -38,8 +38,17 @@ Theorem C17_eval_bounded_along_play : forall u p m, Inv16 p -> In m (legal_moves
   Inv16 (makemove u p m) /\ Z.abs (eval (makemove u p m)) <= 400000.
 Proof. intros u p m I Hm Hl. pose proof (inv16_step u p m I Hm Hl) as I'. split; [exact I'|exact (inv16_eval _ I')]. Qed.
 
+(* ... and with no legality premise: every generated move keeps `Inv16R` (= Inv16 and the en-passant consistency) *)
+Theorem C17_eval_bounded_after_every_generated_move : forall u p m, Inv16R p -> In m (legal_moves p) ->
+  Inv16R (makemove u p m) /\ Z.abs (eval (makemove u p m)) <= 400000.
+Proof.
+  intros u p m I Hm. pose proof (gen_legal u p m (i16_inv p (i16r p I)) (i16r_ep p I) Hm) as Hl.
+  pose proof (inv16R_step u p m I Hm Hl) as I'. split; [exact I'|exact (inv16_eval _ (i16r _ I'))].
+Qed.
+
 Print Assumptions C17_eval_reads_boards_only.
 Print Assumptions C17_eval_inside_mate_range.
 Print Assumptions C17_eval_bounded.
 Print Assumptions C17_eval_antisym.
 Print Assumptions C17_eval_bounded_along_play.
+Print Assumptions C17_eval_bounded_after_every_generated_move.
